@@ -216,9 +216,15 @@ func c15ObfCheck(t vh.Fataler, rec *vh.Rec, c c15ObfCase, reps int) {
 		ob := c15Obfs[e.ob]
 		now := "something else"
 		for _, f := range encs {
-			if f.call != e.call && bytes.Equal(e.raw, f.snap) {
+			if f.call == e.call || len(f.snap) == 0 {
+				continue
+			}
+			if bytes.Equal(e.raw, f.snap) {
 				now = fmt.Sprintf("the encoding that call #%d returned (%s, tag #%d)", f.call, c15Obfs[f.ob].name, f.tag)
 				break
+			}
+			if n := len(f.snap); n < len(e.raw) && bytes.Equal(e.raw[:n], f.snap) {
+				now = fmt.Sprintf("the %d-byte encoding that call #%d returned (%s, tag #%d) followed by its own tail", n, f.call, c15Obfs[f.ob].name, f.tag)
 			}
 		}
 		fail(ob.name + ":MUTATED")
